@@ -109,7 +109,7 @@ func pureCallee(fn *ssa.Function) bool {
 		return r
 	}
 	r = false
-	if _, isIntr := intrinsics[fn.String()]; !isIntr && len(fn.Blocks) == 1 {
+	if _, isIntr := intrinsics[fn.String()]; !isIntr && len(fn.Blocks) == 1 && !isVarintSizeFn(fn) {
 		r = true
 		pureFnMu.Lock()
 		pureFnCache[fn] = false // recursion guard
